@@ -192,17 +192,21 @@ func (gb *GrammarBind) checkSentence(st *grammarStats, toks []RTok, evs []TreeEv
 			hasStr = true
 		}
 	}
-	for variant := 0; hasStr && variant < 1+len(optionalKeywords); variant++ {
+	for variant := 0; hasStr && variant < 2+len(optionalKeywords); variant++ {
 		toks2 := append([]RTok{}, toks...)
 		for i := range toks2 {
 			if toks2[i].Class != "STR" {
 				continue
 			}
 			kw := stringKeywords[(int(seed&0xffff)+i*5)%len(stringKeywords)]
-			if variant > 0 {
+			if variant > len(optionalKeywords) {
+				kw = "" // the empty string is a string token too (an empty description is still a description)
+			} else if variant > 0 {
 				kw = optionalKeywords[variant-1]
 			}
-			if (i+variant)%2 == 0 {
+			if kw == "" && (i+int(seed))%3 == 2 {
+				toks2[i].Text = "\"\"\"\n   \n\"\"\"" // a block string of blank lines has the empty value
+			} else if (i+variant)%2 == 0 {
 				toks2[i].Text = `"` + kw + `"`
 			} else {
 				toks2[i].Text = `"""` + kw + `"""`
